@@ -2,6 +2,8 @@ ENGINES = [
     {"name": "E1-crosshair", "path": "vlib/chx.py", "serves_properties": ["C13", "C18", "C20"],
      "kind_free_text": "CrossHair (z3) symbolic execution of harness conditions that call toasty's real functions; inductive cuts by stubbing recursive globals / the reducer; counterexamples replayed under plain CPython"},
 ]
+ENGINES.append({"name": "E2-symx-symnp", "path": "vlib/e2.py", "serves_properties": ["C15"],
+     "kind_free_text": "own z3-backed proxy-object symbolic execution (vlib/symx.py) with a lazy symbolic numpy (vlib/symnp.py) patched into toasty's modules; claims proved per path; counterexamples and vacuity twins replayed with real numpy on the solver model's inputs"})
 NOTES = ("Solver-based checking of the real code. Exit 0 = all explored obligations held; inconclusive obligations are printed as INCONCLUSIVE and listed in evidence, never counted as held. "
          "Exit 2 = harness error. known_findings.json lists genuine defects (open / fixed).")
 CHECKS["C13"] = dict(
@@ -22,4 +24,11 @@ CHECKS["C20"] = dict(
     technique="CrossHair/z3 symbolic execution of the real SimpleFitsCollection / collection.load / CLI option parsing against a fake HDU list with astropy's indexing contract",
     text="Bounded symbolic execution: for <= 3 files (4 thorough) with 3 HDUs each, symbolic scalar / per-file list / absent HDU index and WCS key, item k is read from HDU scalar | list[k] | first image HDU with the matching key; descriptions() and images() agree; CLI strings parse to scalar or list.",
     note="astropy.io.fits.open / astropy.wcs.WCS replaced by fakes with astropy's indexing contract; astropy's own parsing is outside the claim.",
+)
+
+CHECKS["C15"] = dict(
+    engine="E2-symx-symnp", ref="DESIGN.md §4.1",
+    technique="z3 via own symbolic execution (symx) of the real fill/update/clear/is_completely_masked/write_image/read_image with a lazy symbolic numpy: symbolic source shape, rectangle, pixel, channel and contents",
+    text="Per-pixel semantics decided by z3 for all 8 modes, symbolic source shape (<= 4096^2), symbolic rectangle (forward and reversed-row slice forms), symbolic inspected pixel/channel and arbitrary prior buffer; write_image unlink rule and read_image default handling for both prior file states. unsat = holds for every value in those bounds.",
+    note="numpy as modelled by symnp (validated each run against real numpy on solver-chosen inputs), floats as reals + NaN flag, codecs not symbolic (read-back through PNG/FITS/npy is outside the claim).",
 )
